@@ -10,9 +10,13 @@ mod handle;
 mod interp;
 mod minimise;
 mod model;
+mod allocfail;
 mod ops;
+mod overflow;
 mod probes;
 mod run;
+#[cfg(feature = "cfg_a")]
+mod serde_tape;
 mod shapes;
 
 use ops::*;
@@ -30,8 +34,10 @@ pub const CFG_A: bool = cfg!(feature = "cfg_a");
 struct Current {
     prog: Option<Program>,
     out_dir: String,
+    /// replay text for engines that do not run programs (serde tape)
+    alt: Option<(String, String)>,
 }
-static CUR: Mutex<Current> = Mutex::new(Current { prog: None, out_dir: String::new() });
+static CUR: Mutex<Current> = Mutex::new(Current { prog: None, out_dir: String::new(), alt: None });
 
 fn set_current(p: &Program) {
     let mut g = CUR.lock().unwrap_or_else(|e| e.into_inner());
@@ -49,6 +55,16 @@ fn install_hook(out_dir: &str) {
             Ok(g) => g,
             Err(_) => return,
         };
+        if let Some((name, text)) = &g.alt {
+            if !g.out_dir.is_empty() {
+                let path = format!("{}/viol-{}.replay", g.out_dir, name);
+                let t = format!("{}# class: {}\n# detail: {}\n", text, class, detail.replace('\n', " "));
+                if std::fs::write(&path, t).is_ok() {
+                    println!("REPLAY-FILE\t{}", path);
+                }
+            }
+            return;
+        }
         if let Some(p) = &g.prog {
             let mut p = p.clone();
             let ch = triomphe_verif_rt::sim::choices_so_far();
@@ -165,6 +181,28 @@ fn main() {
             }
             println!("none");
         }
+        "allocfail-ctors" => {
+            for e in allocfail::CTORS {
+                println!("{}", e);
+            }
+        }
+        "allocfail-child" => {
+            let ctor = arg(&args, "--ctor").unwrap_or("arc_new");
+            let n: i64 = arg(&args, "--n").and_then(|s| s.parse().ok()).unwrap_or(0);
+            std::process::exit(allocfail::child(ctor, n));
+        }
+        "overflow-entries" => {
+            for e in overflow::ENTRIES {
+                println!("{}", e);
+            }
+        }
+        "overflow-child" => {
+            let entry = arg(&args, "--entry").unwrap_or("arc_sized");
+            let start: usize = arg(&args, "--start").and_then(|s| s.parse().ok()).unwrap_or(1);
+            std::process::exit(overflow::child(entry, start));
+        }
+        #[cfg(feature = "cfg_a")]
+        "serde" | "serde-replay" => cmd_serde(&args),
         "run" => cmd_run(&args),
         _ => {
             eprintln!("unknown command");
@@ -339,5 +377,67 @@ fn cmd_run(args: &[String]) {
     j.push_str("},\"samples\":[");
     j.push_str(&samples.iter().map(|s| jstr(s)).collect::<Vec<_>>().join(","));
     j.push_str("]}");
+    println!("STATS\t{}", j);
+}
+
+#[cfg(feature = "cfg_a")]
+fn cmd_serde(args: &[String]) {
+    let replaying = args[1] == "serde-replay";
+    let (seed, from, to, only) = if replaying {
+        let text = std::fs::read_to_string(&args[2]).unwrap_or_else(|_| std::process::exit(2));
+        let mut seed = 0u64;
+        let mut index = 0u64;
+        let mut only = None;
+        for l in text.lines() {
+            let w: Vec<&str> = l.split_whitespace().collect();
+            match w.as_slice() {
+                ["seed", x] => seed = x.parse().unwrap_or(0),
+                ["index", x] => index = x.parse().unwrap_or(0),
+                ["phase", d, k] => only = Some((*d == "ser", k.parse().unwrap_or(0))),
+                _ => {}
+            }
+        }
+        (seed, index, index + 1, only)
+    } else {
+        (
+            arg(args, "--seed").and_then(|s| s.parse().ok()).unwrap_or(1),
+            arg(args, "--from").and_then(|s| s.parse().ok()).unwrap_or(0),
+            arg(args, "--to").and_then(|s| s.parse().ok()).unwrap_or(100),
+            None,
+        )
+    };
+    install_hook(arg(args, "--out-dir").unwrap_or(""));
+    let t0 = std::time::Instant::now();
+    let mut st = serde_tape::SerdeStats::default();
+    for i in from..to {
+        println!("BEGIN\tserde\t{}", i);
+        let ctx = |phase: &str| {
+            let _nt = NoTrack::new();
+            let mut g = CUR.lock().unwrap_or_else(|e| e.into_inner());
+            g.alt = Some((format!("C17-serde-{}-{}", seed, i), format!("trisim-serde v1\nseed {}\nindex {}\nphase {}\n", seed, i, phase)));
+        };
+        ctx("all 0");
+        serde_tape::run_case(seed, i, only, &mut st, &ctx);
+    }
+    if replaying {
+        println!("RUN-OK\tserde");
+        return;
+    }
+    let mut j = String::from("{");
+    j.push_str(&format!(
+        "\"profile\":\"C17\",\"cfg\":\"A\",\"seed\":{},\"from\":{},\"to\":{},\"runs\":{},\"values\":{},\"ser_fault_points\":{},\"de_fault_points\":{},\"ser_faults_fired\":{},\"de_faults_fired\":{},\"fresh_blocks_checked\":{},\"value_deserializer_cases\":{},\"distinct_tapes\":{},\"wall_s\":{:.3},",
+        seed, from, to, st.evaluations, st.values, st.ser_fault_points, st.de_fault_points, st.ser_faults_fired, st.de_faults_fired, st.fresh_blocks_checked, st.value_deserializer_cases, st.distinct.len(), t0.elapsed().as_secs_f64()
+    ));
+    j.push_str("\"by_type\":[");
+    j.push_str(&st.by_type.iter().map(|x| x.to_string()).collect::<Vec<_>>().join(","));
+    j.push_str("],\"samples\":[");
+    j.push_str(&st.samples.iter().map(|s| jstr(s)).collect::<Vec<_>>().join(","));
+    j.push_str("]}");
+    if let Some(hp) = arg(args, "--hashes") {
+        let mut f = std::fs::File::create(hp).expect("hash file");
+        for h in &st.distinct {
+            let _ = f.write_all(&h.to_le_bytes());
+        }
+    }
     println!("STATS\t{}", j);
 }
